@@ -68,7 +68,8 @@ CLAIMED.update({
          'structure; z3 proves the kept set is a maximal strongly connected class of maximal population, the trimmed matrix keeps exactly the '
          'counts between kept states (both variants), the mapping is the order-preserving bijection and its inverse, container type and the '
          "caller's matrix are preserved.",
-    note='Trusted: shim, z3, connected_components contract (partition into SCCs; numbering unspecified). COO only among sparse formats.',
+    note='Trusted: shim, z3, connected_components contract (partition into SCCs; numbering unspecified), scipy.sparse shadow. Dense, COO (also with '
+         'repeated coordinates) and the six other sparse containers.',
     ref='DESIGN.md section 8 C11'),
 })
 CLAIMED.update({
@@ -87,7 +88,8 @@ CLAIMED.update({
     text='committors() and mfpts() run on matrices whose entries are real solver variables (row-stochastic, irreducible by positivity or by '
          'an enumerated zero pattern), for every source/sink set pair in the bound; z3 proves the boundary values, the first-step equations, the '
          '[0,1] range, the all-pairs table against the single-sink equations (n=2) and that the inputs are unchanged.',
-    note='Trusted: shim, z3, the linear-solver contracts (A.x=b; Z.M=I). Sparse container path and float conditioning are outside the claim.',
+    note='Trusted: shim, z3, the linear-solver contracts (A.x=b; Z.M=I), the conformance-checked scipy.sparse shadow (symnp/sparse.py). Also run: '
+         'column-major / non-contiguous inputs and each of the 7 sparse containers (tolil path, sparse right-hand sides of spsolve). Float conditioning is outside the claim.',
     ref='DESIGN.md section 8 C07'),
  'C08': dict(
     technique='symbolic execution of reactive_fluxes/net_fluxes/reactive_populations on a symbolic reversible chain; z3 QF_NRA validity',
@@ -95,17 +97,19 @@ CLAIMED.update({
          'cell (catches transposed broadcasting), positive-part net flux, one-directional net flux, conservation at intermediates, no flow into '
          'sources / out of sinks, source outflow = sink inflow and the reactive-population vector, for every source/sink set pair at n<=3 and a '
          'chain pattern at n=4.',
-    note='Trusted: shim, z3, spsolve contract. Dense inputs only.',
+    note='Trusted: shim, z3, spsolve contract, the conformance-checked scipy.sparse shadow (each of the 7 containers at n=3).',
     ref='DESIGN.md section 8 C08'),
 })
 CLAIMED.update({
  'C04': dict(
     technique='symbolic execution of normalize/transpose/_row_normalize/_apply_prior_counts and bounded sweeps of _prinz_mle_py on symbolic real count matrices; eig as Perron contract; z3 QF_NRA (fresh-solver and external-z3 fallback)',
-    text='The builders run on dense count matrices whose entries (and prior counts) are real solver variables; z3 proves T = counts/row totals '
+    text='The builders run on dense count matrices and on every scipy.sparse container (symbolic shadow) whose entries (and prior counts) are real solver variables; z3 proves T = counts/row totals '
          '(zero rows stay zero), returned counts, stationarity and normalisation of the populations, detailed balance for transpose and for '
          "the MLE output after a bounded number of real sweeps, calculate_eq_probs=False => None, and that the caller's matrix is unchanged.",
-    note='Trusted: shim, z3 (two versions), eig/sqrt/log contracts. Outside: every scipy.sparse / np.matrix container clause (compiled containers '
-         'cannot hold solver terms), float rounding, convergence of the MLE iteration.',
+    note='Trusted: shim, z3 (two versions), eig/sqrt/log contracts, and the scipy.sparse shadow (symnp/sparse.py: result formats, element types, '
+         'copy/share rules; checked against the installed scipy on every run by the sparse-shadow-conformance job; replays use the real classes). '
+         'normalize/transpose also run on each of the 7 sparse containers with integer and float counts. Outside: builders.mle on sparse input, '
+         'float rounding, convergence of the MLE iteration.',
     ref='DESIGN.md section 8 C04'),
  'C16': dict(
     technique='symbolic execution of MSM.fit against the composed function pipeline on symbolic assignments; eigenspectrum/timescales under the eig contract; ensemble propagation as polynomial identity; z3',
@@ -113,8 +117,8 @@ CLAIMED.update({
          'count) and z3 proves cell-wise equality with assigns_to_counts -> trim_disconnected -> builder run with the same arguments, and that '
          'config reports them; eigenspectrum post-processing (order, leading value 1, normalised stationary first vector, n_eigs, left/right), '
          'implied timescales = -lag/log(eigenvalue) and ensemble propagation = p.T^s are proved for small n.',
-    note='Trusted: shim, z3, eig/COO/SCC contracts. Outside: save/load round trip (file formats), ARPACK path, sparse containers (builders are '
-         'driven through the callable-method API on dense counts).',
+    note='Trusted: shim, z3, eig/COO/SCC contracts, scipy.sparse shadow (the default path hands the builders sparse counts; both that path and the '
+         'dense callable-method API are run). Outside: save/load round trip (file formats), ARPACK path.',
     ref='DESIGN.md section 8 C16'),
 })
 E2 = ('interpretation of the kernels from the TYPED syntax tree of the installed Cython front end (per fused specialisation) over z3 values: '
@@ -138,13 +142,14 @@ CLAIMED.update({
          'safety for unbounded extents under its own assertions (state ids out of range and mismatched lengths rejected), prange independence. '
          'mutual_information is proved invariant under relabelling of states and under swapping the two sides, equal to the Shannon entropy on '
          'diagonal tables, KL(P,P)=0, and the normalisation divides entry (i,j) by log(min(n_x[i], n_y[j])) for different feature/state counts.',
-    note='Trusted: both engines, z3, log as uninterpreted function with the instances log(1)=0, log(1/p)=-log p. Outside: MI>=0, MI<=min(H), '
-         'KL>=0 as transcendental inequalities; weighted_mi (uniform weights) is not covered.',
+    note='Trusted: both engines, z3, log as uninterpreted function with the instances log(1)=0, log(1/p)=-log p. Relative entropy of two different distributions is proved non-negative, zero only for equal distributions and +inf on support mismatch with log '
+         'abstracted to a real satisfying the tangent bounds 1-1/x <= log x <= x-1; weighted_mi runs with symbolic weights (symmetry, no exception, '
+         'independence from uninitialised memory). Outside: MI<=min(H); equality of weighted_mi with the count-based estimator is only replayed.',
     ref='DESIGN.md section 8 C18'),
  'C19': dict(engine='symnp + cy2smt',
     technique='2-safety on uninitialised-memory variables (fresh cells of arbitrary IEEE kind) in symbolic runs of the routines that allocate masked-ufunc outputs; prange independence obligations; AST scan of uninitialised-output sites; z3',
     text='Memory NumPy does not initialise (masked ufunc without out=, np.empty) is modelled as fresh cells that may be finite, inf or NaN; z3 '
-         'proves the results of shannon_entropy and mutual_information do not depend on them; an AST scan lists every such site in the anchored '
+         'proves the results of shannon_entropy, mutual_information, weighted_mi and the builders do not depend on them; an AST scan lists every such site in the anchored '
          'files and reports the ones no harness executes. Thread independence comes from the prange obligations of the kernels; input '
          'immutability is an obligation of every other harness. Counterexamples are replayed by calling the real function after freeing '
          'NaN/inf-filled blocks.',
@@ -158,9 +163,9 @@ CLAIMED.update({
          'solver variables and compared with the same expression on the list of rows: element access with symbolic integer indices (in range => '
          'exactly that element, otherwise IndexError, never a neighbour), ragged boolean masks and where() with symbolic truth values, rows, row '
          'slices/lists, (row, column) slices on a grid of positive/negative bounds and steps, paired fancy indices, iteration, flatten and '
-         'the lengths/starts/shape/size/dtype attributes. Deviations are classified by region of the index grammar; the nine regions that '
-         'deviate on this tree are recorded known findings, any other deviation is a violation.',
-    note='Trusted: shim, z3. Slice bounds are enumerated (stated grid), not symbolic. Multi-dimensional / object elements are outside the claim.',
+         'the lengths/starts/shape/size/dtype attributes. Arrays whose elements are vectors (frames x features) are read through the same expressions. Deviations are classified by region of the '
+         'index grammar; three regions deviate on this tree and are recorded known findings (six others were repaired), any other deviation is a violation.',
+    note='Trusted: shim, z3. Slice bounds are enumerated (stated grid), not symbolic. Elements with more than one extra dimension / object elements are outside the claim.',
     ref='DESIGN.md section 8 C05'),
  'C06': dict(
     technique='inductive step: one symbolic mutating operation (element/row/2-D slice/mask assignment, append, +=) or binary operator from an arbitrary constructor-built RaggedArray, then z3 validity of the representation invariant and observer/model agreement',
@@ -192,8 +197,8 @@ CLAIMED.update({
          'centers (global indices), labels and distances equal the serial algorithm on the concatenated data, for every trajectory-length '
          'vector and world size in the bound and every tie-free metric. Striped max / mean / random choice / gather and the local<->global '
          'index conversions are proved against their serial definitions.',
-    note='Trusted: shim, simulator (MPI semantics incl. arrival-order independence of matched collectives), z3. Outside: real transport, '
-         'striped file loading, the distributed k-medoids sweep.',
+    note='Trusted: shim, simulator (MPI semantics incl. arrival-order independence of matched collectives), z3. The distributed hybrid (k-centers + one PAM sweep with (rank, index) medoids) runs under the same simulator. Outside: real transport, '
+         'striped file loading under W>1.',
     ref='DESIGN.md sections 6 and 8 C14'),
 })
 CLAIMED.update({
